@@ -35,7 +35,27 @@ func VerifHandleTransaction(c *Context, l *Logger, tx abci.TxResult) { verifCall
 // VerifHandleRequest is `handleRequest(c, l, id)`.
 func VerifHandleRequest(c *Context, l *Logger, id types.RequestID) { verifCall(handleRequest, c, l, id) }
 
-func verifCall(fn any, args ...any) {
+// VerifRunImpl is `runImpl(c, l)`: the daemon's start-up sequence and main loop (it only returns on a start-up error;
+// the text of that error is returned, "" otherwise).
+func VerifRunImpl(c *Context, l *Logger) string {
+	for _, out := range verifCall(runImpl, c, l) {
+		if err, ok := out.Interface().(error); ok && err != nil {
+			return err.Error()
+		}
+	}
+	return ""
+}
+
+// VerifSetSubmission sets what the `run` command takes from --max-report and --broadcast-timeout.
+func VerifSetSubmission(c *Context, maxReport uint64, broadcastTimeout time.Duration) {
+	c.maxReport, c.broadcastTimeout = maxReport, broadcastTimeout
+	c.keyRoundRobinIndex = -1 // as runCmd does
+}
+
+// VerifTxQuery is the subscription query of the run loop.
+const VerifTxQuery = TxQuery
+
+func verifCall(fn any, args ...any) []reflect.Value {
 	f := reflect.ValueOf(fn)
 	t := f.Type()
 	in := make([]reflect.Value, t.NumIn())
@@ -46,7 +66,7 @@ func verifCall(fn any, args ...any) {
 			in[i] = reflect.Zero(t.In(i))
 		}
 	}
-	f.Call(in)
+	return f.Call(in)
 }
 
 var verifKey *keyring.Record
